@@ -226,3 +226,41 @@ func (m *Model) RunBuiltinPurity(s *Sink, rule string) {
 		}
 	}
 }
+
+// RunProcessState: the standard library keeps registries and settings of its own that are shared by the whole
+// process (expvar's variables, the environment, the default serve mux, the default logger, the working directory).
+// Writing one of them from a render is shared mutable state that no write summary of this module sees: two renders
+// interleave on it (expvar.NewInt panics on a name registered twice) and a later render sees what an earlier one left.
+func (m *Model) RunProcessState(s *Sink, rule string, roots []*ssa.Function) {
+	writers := []string{"expvar.New", "expvar.Publish", "os.Setenv", "os.Unsetenv", "os.Clearenv", "os.Chdir", "net/http.Handle", "net/http.HandleFunc",
+		"log.SetOutput", "log.SetFlags", "log.SetPrefix", "flag.Set", "flag.Parse", "flag.Var", "flag.String", "flag.Int", "flag.Bool", "math/rand.Seed", "runtime.GOMAXPROCS",
+		"runtime/debug.Set", "(*expvar.Map).", "(*expvar.Int).Add", "(*expvar.Int).Set", "(*expvar.Float).Add", "(*expvar.Float).Set", "(*expvar.String).Set", "time.LoadLocation"}
+	fns := m.reachableFns(roots)
+	n := 0
+	for _, fn := range fns {
+		if fn.Blocks == nil || !m.InModule(fn) {
+			continue
+		}
+		for _, b := range fn.Blocks {
+			for _, in := range b.Instrs {
+				c, ok := in.(ssa.CallInstruction)
+				if !ok || c.Common().StaticCallee() == nil {
+					continue
+				}
+				name := fnFullName(c.Common().StaticCallee())
+				for _, w := range writers {
+					if w == "time.LoadLocation" {
+						continue
+					}
+					if strings.HasPrefix(name, w) {
+						n++
+						s.Violation(rule, fmt.Sprintf("%s|writes process-wide library state (%s)", fnKey(fn), name), m.InstrPos(in), "%s calls %s on a path from a render entry point: the registry or setting it writes belongs to the whole process — concurrent renders interleave on it (a name registered twice panics) and later renders see what earlier ones left", fnKey(fn), name)
+					}
+				}
+			}
+		}
+	}
+	if n == 0 {
+		s.OK(rule, "render paths|no write to process-wide library state", "-", "no call of expvar / os.Setenv / os.Chdir / http.Handle / log.Set* / flag.* / rand.Seed among %d reachable functions", len(fns))
+	}
+}
